@@ -84,15 +84,16 @@ def fn_table(cases, name="fn", *, timeout=600, bindir=None):
     """Evaluate function-table cases (list of dicts) with the real functions; returns list of results."""
     d, exe = prepare(name, bindir)
     inp = "\n".join(json.dumps(c) for c in cases) + "\n"
-    env = dict(os.environ, VERIF_CMD="fn-table", RUST_BACKTRACE="0")
+    outp = os.path.join(d, "results.ndjson")
+    env = dict(os.environ, VERIF_CMD="fn-table", VERIF_OUT=outp, RUST_BACKTRACE="0")
     try:
-        p = subprocess.run([exe], env=env, cwd=d, input=inp, stdout=subprocess.PIPE, stderr=subprocess.PIPE,
+        p = subprocess.run([exe], env=env, cwd=d, input=inp, stdout=subprocess.DEVNULL, stderr=subprocess.PIPE,
                            timeout=timeout, text=True, errors="replace")
     except subprocess.TimeoutExpired:
         raise util.ToolError("fn-table %s timed out" % name)
     if p.returncode != 0:
         raise util.ToolError("fn-table %s failed rc=%s: %s" % (name, p.returncode, p.stderr[-2000:]))
-    res = [json.loads(l) for l in p.stdout.splitlines() if l.strip()]
+    res = util.read_ndjson(outp)
     if len(res) != len(cases):
         raise util.ToolError("fn-table %s: %d results for %d cases" % (name, len(res), len(cases)))
     return res
